@@ -22,9 +22,11 @@ class SpecValidator:
                     self.groups.setdefault(g, []).append(n)
         self.inline = {n: bool(s.get("inline")) or n == "text" for n, s in spec["nodes"].items()}
         self.regex = {}
+        self.first = {}       # node type -> types that can come first in its content
         self.inline_content = {}
         for n, s in spec["nodes"].items():
             self.regex[n], self.inline_content[n] = self.compile(s.get("content") or "")
+            self.first[n] = set(self.last_first)
         self.mark_rank = {m: i for i, m in enumerate(self.mark_names)}
         self.mark_groups = {}
         for m, s in (spec.get("marks") or {}).items():
@@ -75,17 +77,23 @@ class SpecValidator:
                 return True
             return False
 
+        # every parse function returns (regex text, nullable, set of node types a matching sequence can start with)
         def p_expr():
             parts = [p_seq()]
             while eat("|"):
                 parts.append(p_seq())
-            return "(?:" + "|".join(parts) + ")"
+            return ("(?:" + "|".join(x[0] for x in parts) + ")", any(x[1] for x in parts), set().union(*[x[2] for x in parts]))
 
         def p_seq():
             parts = [p_sub()]
             while peek() is not None and peek() not in (")", "|"):
                 parts.append(p_sub())
-            return "(?:" + "".join(parts) + ")"
+            first, nullable = set(), True
+            for x in parts:
+                if nullable:
+                    first |= x[2]
+                nullable = nullable and x[1]
+            return ("(?:" + "".join(x[0] for x in parts) + ")", nullable, first)
 
         def p_num():
             t = peek()
@@ -95,14 +103,14 @@ class SpecValidator:
             return int(t)
 
         def p_sub():
-            e = p_atom()
+            e, nl, fs = p_atom()
             while True:
                 if eat("+"):
                     e = "(?:" + e + ")+"
                 elif eat("*"):
-                    e = "(?:" + e + ")*"
+                    e, nl = "(?:" + e + ")*", True
                 elif eat("?"):
-                    e = "(?:" + e + ")?"
+                    e, nl = "(?:" + e + ")?", True
                 elif eat("{"):
                     lo = p_num()
                     hi = lo
@@ -114,8 +122,11 @@ class SpecValidator:
                         e = "(?:" + e + "){%d,}" % lo
                     else:
                         e = "(?:" + e + "){%d,%d}" % (lo, max(lo, hi))
+                        if max(lo, hi) == 0:
+                            fs = set()
+                    nl = nl or lo == 0
                 else:
-                    return e
+                    return e, nl, fs
 
         def p_atom():
             if eat("("):
@@ -135,13 +146,15 @@ class SpecValidator:
                     inline[0] = self.inline[n]
                 elif inline[0] != self.inline[n]:
                     raise SpecError("mixing inline and block")
-            return "[" + "".join(self.char[n] for n in names) + "]"
+            return ("[" + "".join(self.char[n] for n in names) + "]", False, set(names))
 
+        self.last_first = set()
         if not toks:
             return re.compile(""), False
-        rx = p_expr()
+        rx, _nullable, first = p_expr()
         if pos[0] != len(toks):
             raise SpecError("trailing text")
+        self.last_first = first
         return re.compile(rx), bool(inline[0])
 
     # ---------------------------------------------------------------------------------------
